@@ -350,7 +350,7 @@ pub enum TokenType {
 
     #[regex(r"%[IQM]\*", ignore(case))]
     DirectAddressIncomplete,
-    #[regex(r"%[IQM]([XBWDL])?(\d(\.\d)*)", ignore(case))]
+    #[regex(r"%[IQM]([XBWDL])?([0-9]+(\.[0-9]+)*)", ignore(case))]
     DirectAddress,
 
     // Expressions
